@@ -61,9 +61,16 @@ def ladder_input(rng: random.Random) -> Dict:
 
 
 def ladder_records(rng: random.Random, n: int) -> List[Dict]:
+    """n rows; three quarters of them are required to have >= 2 non-empty segments before chaining (the cases in
+    which chaining and conflict resolution matter), the rest is taken as it comes"""
     out = []
-    while len(out) < n:
-        out.append(run_align(ladder_input(rng), False))
+    attempts = 0
+    while len(out) < n and attempts < 12 * n:
+        attempts += 1
+        rec = run_align(ladder_input(rng), False)
+        if len(out) % 4 != 3 and len(rec["chain"]) < 2:
+            continue
+        out.append(rec)
     return out
 
 
